@@ -795,8 +795,7 @@ func (s *Service) notifyMessage(g *Group, msg GroupMessage, st *WsStream) (e err
 		go func() {
 			defer close(st.done)
 			for {
-				var nothing protobuf.Message
-				err := st.r.ReadMsg(nothing)
+				err := st.r.ReadMsg(&pb.GroupMsg{})
 				s.logger.Tracef("group: sessionID %s close from the sender %v", msg.SessionID, err)
 				return
 			}
